@@ -118,6 +118,9 @@ func (sw *SyncWorld) New(dir string) *casbin.SyncedEnforcer {
 
 // lockModeOf observes which lock a method needs: called while another goroutine holds the read
 // lock (completes => at most R) and while it holds the write lock (completes => none).
+// panics seen while probing lock modes (the only calls the write-lock wrappers get in this stage)
+var probePanics sync.Map
+
 func lockModeOf(sw *SyncWorld, dir string, m syncapi.Method, rng *rand.Rand) string {
 	probe := func(write bool) bool {
 		e := sw.New(dir)
@@ -131,7 +134,9 @@ func lockModeOf(sw *SyncWorld, dir string, m syncapi.Method, rng *rand.Rand) str
 		}
 		done := make(chan struct{})
 		go func() {
-			syncapi.Call(e, m, args)
+			if p := syncapi.Call(e, m, args); p != "" {
+				probePanics.Store(m.Name, p)
+			}
 			close(done)
 		}()
 		completed := false
@@ -166,7 +171,7 @@ func runC12(c *Ctx) {
 	if c.Thorough() {
 		rounds = 40
 	}
-	c.Rule = fmt.Sprintf("every method of *SyncedEnforcer found in the source (go/ast) x 4 models (RBAC with hierarchy, RBAC with domains, two policy types + two role definitions, pattern-matching role manager): (1) the lock the method really needs, observed by calling it while the read lock / the write lock is held elsewhere, vs the mode in the extracted lock table (Lean driver); (2) for every method that does not take the write lock: a deep snapshot of all plain (non-sync, non-atomic) memory reachable from the embedded Enforcer before and after the call, first call on a fresh enforcer included, %d argument draws per method and model: no difference allowed; (3) no panic escapes any wrapper on plausible arguments; the race-detector stress stage (cmd/stress, built with -race) runs after this one; non-trivial = a read-path method that returned data; distinct = (model, method, arguments)", rounds)
+	c.Rule = fmt.Sprintf("every method of *SyncedEnforcer found in the source (go/ast); models: RBAC with hierarchy, RBAC with domains, two policy types + two role definitions, pattern-matching role manager: (1) the lock the method really needs, observed on the first model by calling it while the read lock / the write lock is held elsewhere, vs the mode in the extracted lock table (Lean driver); (2) on each of the 4 models, for every method that does not take the write lock: a deep snapshot of all plain (non-sync, non-atomic) memory reachable from the embedded Enforcer before and after the call, %d fresh enforcers per method and model with two calls each (the first call on a fresh enforcer, then the method again with other arguments): no difference allowed; (3) no panic escapes a wrapper on plausible arguments: every call of (1) and (2) (write-lock wrappers are called in (1) only; the stress stage calls them all); the race-detector stress stage (cmd/stress, built with -race) runs after this one; non-trivial = a snapshot-compared call; distinct = (model, method, arguments)", rounds)
 	methods, err := syncapi.Methods("/repo")
 	if err != nil {
 		panic(err)
@@ -202,6 +207,10 @@ func runC12(c *Ctx) {
 		}(i, m)
 	}
 	mwg.Wait()
+	probePanics.Range(func(k, v interface{}) bool {
+		c.Direct("a SyncedEnforcer method panicked", fmt.Sprintf("model=%s method=%v (lock-mode probe) panic=%v", worlds[0].Name, k, v))
+		return true
+	})
 	for _, m := range methods {
 		c.W.Op("wrapper "+m.Name, "mode="+modes[m.Name])
 		c.Count("mode="+modes[m.Name], 1)
